@@ -565,6 +565,46 @@ fn box_targeted_invalid(obs: &mut Obs, _thorough: bool) -> Res {
     Ok(())
 }
 
+/// conditions folded into parenthesised binary trees, an `&&` or `||` at every level (what a query builder
+/// writes for 20-60 conditions): every depth of a dense range, left- and right-nested, negated levels, mixed
+/// operators, on a short list of records.  Evaluation work must stay in proportion to the size of the
+/// expression; a blow-up per nesting level shows as a call beyond the watchdog's limit.
+fn box_logical_nesting(obs: &mut Obs, thorough: bool) -> Res {
+    let doc = json!([{"id": 1, "n": "a"}, {"id": 20, "n": "b"}, {"id": 99, "n": "c"}, {"n": "d"}]);
+    let cond = |i: usize| match i % 4 {
+        0 => format!("@.id == {}", i),
+        1 => format!("@.n != 'x{}'", i),
+        2 => format!("{} > @.id", i),
+        _ => "@.id".to_string(),
+    };
+    let shapes: [(&str, fn(usize, &dyn Fn(usize) -> String) -> String); 7] = [
+        ("left-nested-or", |n, c| (1..=n).fold(c(0), |acc, i| format!("({} || {})", acc, c(i)))),
+        ("right-nested-or", |n, c| (1..=n).fold(c(0), |acc, i| format!("({} || {})", c(i), acc))),
+        ("left-nested-and", |n, c| (1..=n).fold(c(3), |acc, i| format!("({} && {})", acc, c(4 * i + 1)))),
+        ("right-nested-and", |n, c| (1..=n).fold(c(3), |acc, i| format!("({} && {})", c(4 * i + 1), acc))),
+        ("alternating", |n, c| (1..=n).fold(c(0), |acc, i| if i % 2 == 0 { format!("({} || {})", acc, c(i)) } else { format!("({} && {})", c(i), acc) })),
+        ("negated-levels", |n, c| (1..=n).fold(c(0), |acc, i| format!("!({} || {})", acc, c(i)))),
+        ("both-sides-grouped", |n, c| (1..=n).fold(c(0), |acc, i| format!("({} || ({} && {}))", acc, c(i), c(i + 1)))),
+    ];
+    let mut depths: Vec<usize> = (1..=if thorough { 128 } else { 64 }).collect();
+    depths.extend([160usize, 200, 256]);
+    let mut count = 0usize;
+    for (name, mk) in shapes {
+        for &n in &depths {
+            let q = format!("$[?{}]", mk(n, &cond));
+            obs.nontrivial(&(name, n), || json!({"shape": name, "depth": n, "query(depth 3)": format!("$[?{}]", mk(3, &cond))}));
+            match all_entry_points(&q, &doc, obs)? {
+                Out::Ok => {}
+                Out::Err => return Err(Failure::new(format!("a valid filter of {} nested groups ({}) is refused", n, name), json!({"query": q, "doc": doc}))),
+            }
+            count += 1;
+        }
+    }
+    obs.boxes.push(json!({"box": "parenthesised binary trees of conditions with && / || at every level, every depth of the range, through all entry points", "shapes": shapes.iter().map(|s| s.0).collect::<Vec<_>>(),
+                          "depths": format!("1..={} and 160, 200, 256", if thorough { 128 } else { 64 }), "queries": count, "exhaustive": true}));
+    Ok(())
+}
+
 fn direct(case: &Value, obs: &mut Obs) -> Res {
     let q = case["query"].as_str().unwrap_or("");
     all_entry_points(q, &case["doc"], obs).map(|_| ())
@@ -586,6 +626,7 @@ pub fn prop() -> Prop {
             Sub { name: "probes", kind: Kind::Exhaustive(probes) },
             Sub { name: "box-targeted-invalid", kind: Kind::Exhaustive(box_targeted_invalid) },
             Sub { name: "box-regex-sizes", kind: Kind::Exhaustive(box_regex_sizes) },
+            Sub { name: "box-logical-nesting", kind: Kind::Exhaustive(box_logical_nesting) },
             Sub { name: "random-valid", kind: Kind::Random { f: random_valid, quick: 30_000, thorough: 1_600_000, len: 600 } },
             Sub { name: "random-near-miss", kind: Kind::Random { f: random_near_miss, quick: 160_000, thorough: 3_200_000, len: 600 } },
             Sub { name: "random-extreme-text", kind: Kind::Random { f: random_extreme_text, quick: 80_000, thorough: 1_600_000, len: 64 } },
